@@ -314,9 +314,16 @@ func c17Doc(c *fw.Ctx) (corpusDoc, string) {
 	ttxFarOdds = 1
 	d := genDoc(c.R, format, variant == 3)
 	ttxFarOdds = 3
-	if (format == "srt" || format == "webvtt" || format == "ssa") && !bytes.Contains(d.Data, []byte("\r")) && c.R.Bool() {
+	if (format == "srt" || format == "webvtt" || format == "ssa") && (variant == 1 || variant == 2) {
+		d.Data = bytes.ReplaceAll(bytes.ReplaceAll(d.Data, []byte("\r\n"), []byte("\n")), []byte("\r"), []byte("\n"))
 		d.Data = mixEOL(c.R, d.Data) // line ends of every kind in one document
 		d.Origin += ", mixed line ends"
+		if variant == 2 {
+			// ... and CR CR LF, what a CRLF file becomes once a tool has written it again in text mode (whatever that
+			// denotes, it denotes it under every delivery)
+			d.Data = bytes.ReplaceAll(d.Data, []byte("\r\n"), []byte("\r\r\n"))
+			d.Origin += ", CR CR LF"
+		}
 	}
 	return d, "valid"
 }
